@@ -302,21 +302,30 @@ impl Heap {
 
 thread_local! {
     static HEAP: RefCell<Heap> = RefCell::new(Heap::new());
+    static TOTAL_FAULTS: std::cell::Cell<u64> = const { std::cell::Cell::new(0) };
+}
+
+/// Allocator faults fired over all runs of this thread (evidence).
+pub fn counters_total() -> u64 {
+    TOTAL_FAULTS.with(|t| t.get())
 }
 
 unsafe fn hook_alloc(l: Layout) -> *mut u8 {
+    super::yieldp::point("alloc");
     HEAP.with(|h| {
         let mut h = h.borrow_mut();
         if h.enabled { unsafe { h.alloc(l) } } else { unsafe { sysalloc::alloc(l) } }
     })
 }
 unsafe fn hook_realloc(p: *mut u8, l: Layout, n: usize) -> *mut u8 {
+    super::yieldp::point("realloc");
     HEAP.with(|h| {
         let mut h = h.borrow_mut();
         if h.enabled { unsafe { h.realloc(p, l, n) } } else { unsafe { sysalloc::realloc(p, l, n) } }
     })
 }
 unsafe fn hook_dealloc(p: *mut u8, l: Layout) {
+    super::yieldp::point("dealloc");
     HEAP.with(|h| {
         let mut h = h.borrow_mut();
         if h.enabled { unsafe { h.dealloc(p, l) } } else { unsafe { sysalloc::dealloc(p, l) } }
@@ -357,6 +366,7 @@ pub fn end_run() -> (usize, Option<HeapViolation>) {
         h.check_integrity();
         let live = h.live_count();
         let v = h.violation.clone();
+        TOTAL_FAULTS.with(|t| t.set(t.get() + h.counters.faults()));
         // Leaked blocks stay allocated from the crate's point of view; the harness owns the memory.
         h.release_all();
         h.enabled = false;
